@@ -1,15 +1,147 @@
 /-
   C03 — decoders are safe and honest on arbitrary bytes.  Property theorems only
-  (helper lemmas: Lemmas/Decode.lean).
+  (helper lemmas: Lemmas/DecodeSafe.lean, Decode.lean, DecodeResume.lean, DecodeArrive.lean).
+  `decodeV v st segs peek` is the model of mpt_decode_cobs / _r / _zpe / _zpe_r (Impl/Decode.lean):
+  `segs` = the iovec array as (address mod 16, bytes), `peek` = (sourcelen == 0).
 -/
-import MptModel.Impl.Decode
+import MptModel.Lemmas.Decode
+import MptModel.Lemmas.DecodeArrive
 namespace Mpt.C03
 open Mpt.Cobs Mpt.Codec
+
+/-- states the decoders themselves produce: a waiting message is exactly the decoded data -/
+def WF (st : DecState) : Prop := ∀ m, st.msg = some m → m = st.len
+
+/-- the storage the call may touch -/
+def total (segs : List Seg) (peek : Bool) : Nat := (flat (if peek then segs.take 1 else segs)).length
+
+/-- Termination: the block loop is structurally recursive on the number of unread bytes (no fuel, no
+    `partial`); in every call, for every state and every input, the loads happen at strictly increasing
+    indices inside the storage — each byte is read at most once per call. -/
+theorem terminates (v : Variant) (st : DecState) (segs : List Seg) (peek : Bool) (hwf : WF st) :
+    (decodeV v st segs peek).reads.Pairwise (· < ·) ∧
+    ∀ x ∈ (decodeV v st segs peek).reads, x < total segs peek :=
+  (decodeV_safe v st segs peek hwf).reads
+
+example : (decodeV .cobs {} [(3, [3, 0x61, 0x62, 0])] false).reads = [0, 1, 2, 3] := by decide
+
+/-- Memory safety of the model: for every state, every byte string, every segmentation, alignment and
+    mode, no load leaves the storage (`.oob`), every store goes to an index strictly below the current
+    read index which itself is inside the storage (never `.clobber`), and the storage keeps its size. -/
+theorem write_behind_read (v : Variant) (st : DecState) (segs : List Seg) (peek : Bool) (hwf : WF st) :
+    (decodeV v st segs peek).ret ≠ .oob ∧ (decodeV v st segs peek).ret ≠ .clobber ∧
+    (decodeV v st segs peek).store.length = total segs peek ∧
+    ∀ x ∈ (decodeV v st segs peek).writes, x.1 < x.2 ∧ x.2 ≤ total segs peek :=
+  let h := decodeV_safe v st segs peek hwf
+  ⟨h.nofault.1, h.nofault.2, h.len, h.writes⟩
+
+example : (decodeV .cobsR {} [(0, [5, 1, 2, 0])] false).writes = [(0, 2), (1, 3), (2, 4)] := by decide
+
+/-- Honesty over every segmentation in time: from the reset state, however the byte stream arrives in
+    pieces (`arrive`: the pieces are appended to the receive segment at any base alignment `a`, the
+    decoder is called after every arrival and resumes after every `0`), the first delivered message is the
+    reference decoding of the first frame `pre ++ [0]` of the stream — for all four framings and
+    arbitrary bytes `junk` behind the frame. -/
+theorem honest (v : Variant) (a : Nat) (pieces : List (List Byte)) (pre junk : List Byte) (o : DecOut)
+    (hS : pieces.flatten = pre ++ 0 :: junk) (hnz : ∀ x ∈ pre, x ≠ 0)
+    (h : arrive v a {} [] pieces = some o) (h1 : o.ret = .val 1) : dec v (pre ++ [0]) = some o.region :=
+  arrive_honest v a pieces pre junk o hS hnz h h1
+
+example : (arrive .cobsR 0 {} [] [[3], [0x61], [], [0x62, 0, 9]]).map (fun o => (o.ret, o.region))
+    = some (.val 1, [0x61, 0x62]) := by decide
+
+/-- Honesty, one call, any segment structure: on a state between two messages (reset state, head room
+    state, or after a delivered message) whose unread input — spread over any number of segments with
+    any base alignments — starts with the bytes `pre ++ [0]` (`pre` without zero), a delivered message
+    is the reference decoding of that frame. -/
+theorem honest_call (v : Variant) (st : DecState) (segs : List Seg) (pre junk : List Byte) (hf : Fresh st)
+    (hin : (flat segs).drop st.curr = pre ++ 0 :: junk) (hnz : ∀ x ∈ pre, x ≠ 0)
+    (h1 : (decodeV v st segs false).ret = .val 1) :
+    dec v (pre ++ [0]) = some (decodeV v st segs false).region ∧
+    (decodeV v st segs false).st.msg = some (decodeV v st segs false).st.len :=
+  decodeV_honest v st segs pre junk hf hin hnz h1
+
+example : (decodeV .zpe { curr := 2 } [(0, [0xdd, 0xdd, 0xe1, 7, 1, 0])] false).region = [7, 0, 0] := by decide
+
+/-- Honesty for every frame of a stream: from any state between two messages (after earlier deliveries
+    or skipped delimiters), with part of the frame possibly in the segment already and the rest arriving
+    in arbitrary pieces, a delivered message is the reference decoding of the frame at the input position. -/
+theorem honest_stream (v : Variant) (a : Nat) (st : DecState) (store : List Byte) (pieces : List (List Byte))
+    (pre junk : List Byte) (o : DecOut) (hf : Fresh st) (hc : st.curr ≤ store.length)
+    (hS : store.drop st.curr ++ pieces.flatten = pre ++ 0 :: junk) (hnz : ∀ x ∈ pre, x ≠ 0)
+    (h : arrive v a st store pieces = some o) (h1 : o.ret = .val 1) : dec v (pre ++ [0]) = some o.region :=
+  arrive_honest' v a st store pieces pre junk o hf hc hS hnz h h1
+
+/-- malformed input is never turned into a message: when the reference decoder rejects the frame (zero
+    inside a block for the plain framings, leading or doubled delimiter, …) the call does not deliver -/
+theorem no_invention (v : Variant) (st : DecState) (segs : List Seg) (pre junk : List Byte) (hf : Fresh st)
+    (hin : (flat segs).drop st.curr = pre ++ 0 :: junk) (hnz : ∀ x ∈ pre, x ≠ 0)
+    (hbad : dec v (pre ++ [0]) = none) : (decodeV v st segs false).ret ≠ .val 1 := by
+  intro h1
+  have := (honest_call v st segs pre junk hf hin hnz h1).1
+  rw [hbad] at this
+  simp at this
+
+example : dec .cobs [3, 0x61, 0] = none ∧ (decodeV .cobs {} [(0, [3, 0x61, 0, 0x62, 0])] false).ret = .err .MissingData := by decide
+example : dec .cobs [0] = none ∧ (decodeV .cobs {} [(0, [0, 2, 0x61, 0])] false).ret = .err .BadValue := by decide
 
 /-- the size query (`source == NULL`, `sourcelen != 0`) changes nothing (there is no storage argument) -/
 theorem query_pure (v : Variant) (st : DecState) (n : Nat) (h : n ≠ 0) : (decodeQuery v st n).2 = st := by
   simp [decodeQuery, h]
 
 example : (decodeQuery .zpe { len := 2 } 5).1 = .val 12 := by decide
+
+/-- full statement of the header comment "Pass sourcelen = 0 … No data change is performed":
+    peek mode returns the storage unchanged -/
+def peek_pure_statement : Prop :=
+  ∀ (v : Variant) (st : DecState) (seg : Seg), WF st → (decodeV v st [seg] true).store = seg.2
+
+/-- it does not hold for the code as written: peek mode decodes the rest of the open block in place -/
+theorem peek_pure_counterexample : ¬ peek_pure_statement := by
+  intro h
+  have := h .cobs { ctx := 3, curr := 2, pos := 0, len := 1 } (0, [0x61, 0xdd, 0x62, 0]) (by simp [WF])
+  revert this
+  decide
+
+/-- what does hold in peek mode: no message is started or dropped — with a delivered message waiting, or
+    no message in progress, the call is refused and neither state nor storage change -/
+theorem peek_pure_partial (v : Variant) (st : DecState) (seg : Seg)
+    (h : st.msg.isSome ∨ st.len = 0) :
+    (decodeV v st [seg] true).store = seg.2 ∧
+    ((decodeV v st [seg] true).ret = .err .BadOperation ∨ (decodeV v st [seg] true).ret = .err .BadArgument) := by
+  have hflat : flat [seg] = seg.2 := by simp [flat]
+  have hprep : ∃ e st', decPrep st [seg] (flat [seg]) true = .inl (e, st') ∧ (e = .BadOperation ∨ e = .BadArgument) := by
+    unfold decPrep
+    simp only
+    split
+    · exact ⟨_, _, rfl, Or.inr rfl⟩
+    split
+    · exact ⟨_, _, rfl, Or.inl rfl⟩
+    · rename_i _ hm
+      have hnone : st.msg = none := by
+        cases hs : st.msg with
+        | none => rfl
+        | some m => simp [hs] at hm
+      have hl : st.len = 0 := by
+        rcases h with h | h
+        · simp [hnone] at h
+        · exact h
+      have : (decPrev st).2.2 = 0 := by simp [decPrev, hnone, hl]
+      rw [if_pos this]
+      exact ⟨_, _, rfl, Or.inl rfl⟩
+  obtain ⟨e, st', he, hor⟩ := hprep
+  have hcobs : decodeCobs v st [seg] true = { ret := .err e, st := st', store := flat [seg] } := by
+    unfold decodeCobs
+    simp only [if_true, List.take_one, List.head?_cons, Option.toList_some, he]
+  unfold decodeV
+  cases ht : v.tail
+  · simp only [Bool.false_eq_true, if_false, hcobs, hflat]
+    rcases hor with rfl | rfl <;> simp
+  · simp only [if_true]
+    unfold decodeCobsR
+    simp only [hcobs]
+    rw [if_neg (by simp; intro h; exact absurd h (by rcases hor with rfl | rfl <;> simp))]
+    simp only [hflat]
+    rcases hor with rfl | rfl <;> simp
 
 end Mpt.C03
